@@ -386,7 +386,7 @@ class RecvUnit(Unit):
 def keep_for(*prefixes):
     """obligation filter of a property module: its own clauses, plus everything the inductive argument itself needs (loop invariants, implicit exceptions)"""
     def keep(n):
-        return n.startswith(prefixes) or n.startswith(('loop[', 'implicit:', 'CANARY')) or '.no_failure' in n
+        return any(p_ in n for p_ in prefixes) or n.startswith(('loop[', 'implicit:', 'CANARY')) or '.no_failure' in n
     return keep
 
 
